@@ -90,8 +90,11 @@ try:
     elif fn == 'remove_scaling' and 'caller' in name:
         out['replayable'] = True
         for _ in range(50000):
-            lo = float(np.round(rng.normal() * 3, 1)); hi = lo + float(np.round(abs(rng.normal()) * 3 + 0.1, 1))
-            x = float(rng.choice([0.0, 1.0, rng.uniform(0, 1)]))
+            if _ % 2:
+                lo = float(np.round(rng.normal() * 3, 1)); hi = lo + float(np.round(abs(rng.normal()) * 3 + 0.1, 1))
+            else:       # generic doubles over seven decades
+                lo = float(rng.normal() * 10.0 ** rng.integers(-3, 4)); hi = lo + float(abs(rng.normal()) * 10.0 ** rng.integers(-3, 4)) + 1e-9
+            x = float(rng.choice([0.0, 1.0, rng.uniform(0, 1), np.nextafter(1.0, 0.0)]))
             r = util.remove_scaling(np.array([x]), (np.array([lo]), np.array([hi - lo]), np.array([hi])))[0]
             if not (lo <= r <= hi):
                 out.update(reproduced=True, inputs={'x_scaled': x, 'lower': lo, 'upper': hi}, observed={'result': r, 'overshoot': max(lo - r, r - hi)})
